@@ -14,7 +14,7 @@ RULE = ("every ordered pair (and triple, for transitivity) of signed-cost vector
         "plus pairs built through Individual.calc_signed_costs for every min/max sign assignment. "
         "A case is non-trivial when the two vectors differ; distinct = distinct (comparator, p, q).")
 ASSUMPTIONS = [
-    "markers are the values artap writes (False = satisfies all constraints, True otherwise)",
+    "reference verdicts are demanded only for the markers artap writes (False = satisfies all constraints, True otherwise); over numeric markers of both signs only the stated laws (irreflexive, antisymmetric, transitive, zero preferred) are checked",
     "finite floats; alphabet differences >= 1 so 'differ by more than rounding error' holds for every epsilon listed",
     "NaN and mixed-length vectors are outside the statement",
 ]
@@ -161,6 +161,70 @@ def _shard(shard, col: Collector):
                         for key, msg in check_triple(spec, vs[a], vs[b], vs[c]):
                             col.violation(key, "triple", msg, {"spec": spec, "a": vs[a], "b": vs[b], "c": vs[c]})
         col.count("triples", n * n * n)
+    elif kind == "laws":
+        # Numeric markers (the comparator's documented reading: 0 = feasible, otherwise a degree of violation), both signs.
+        # No reference verdict is demanded here - only the laws the statement names for ALL marker combinations:
+        # irreflexive, antisymmetric, transitive; and a zero marker beats a non-zero one.
+        _, spec, m = shard
+        cmp_ = make_comparator(spec).compare
+        name = "pareto" if spec == "pareto" else "epsilon"
+        marks = (False, True, 0.5, -0.5, 2.0, -1.0, 1)
+        vs = [tuple(v) + (f,) for v in itertools.product(V3 if m == 1 else B2, repeat=m) for f in marks]
+        n = len(vs)
+        ver = [[cmp_(list(p), list(q)) for q in vs] for p in vs]
+        for i, p in enumerate(vs):
+            for j, q in enumerate(vs):
+                col.case()
+                if i != j:
+                    col.nontrivial(("laws", name, p, q))
+                if name == "epsilon" and p[:-1] == q[:-1] and abs(p[-1]) == abs(q[-1]):
+                    continue      # identical vectors of one feasibility class: the epsilon comparator names a loser by design
+                if ver[j][i] != swap(ver[i][j]):
+                    col.violation("C01:%s:antisymmetry:numeric-markers" % name, "lawpair",
+                                  "%s.compare(p,q)=%r but compare(q,p)=%r for p=%r q=%r" % (name, ver[i][j], ver[j][i], p, q), {"spec": spec, "p": p, "q": q})
+                if (p[-1] == 0) != (q[-1] == 0) and ver[i][j] != (1 if p[-1] == 0 else 2):
+                    col.violation("C01:%s:feasible-not-preferred:numeric-markers" % name, "lawpair",
+                                  "%s.compare(%r, %r) = %r although exactly one marker is zero" % (name, p, q, ver[i][j]), {"spec": spec, "p": p, "q": q})
+        if name == "pareto":
+            dom = [[j for j in range(n) if ver[i][j] == 1] for i in range(n)]
+            for a in range(n):
+                for b in dom[a]:
+                    for c in dom[b]:
+                        if ver[a][c] != 1:
+                            col.violation("C01:pareto:transitivity:numeric-markers", "triple",
+                                          "a>b and b>c but compare(a,c)=%r for a=%r b=%r c=%r" % (ver[a][c], vs[a], vs[b], vs[c]), {"spec": spec, "a": vs[a], "b": vs[b], "c": vs[c]})
+        col.sample({"kind": "laws over numeric markers", "comparator": spec, "m": m, "markers": [repr(x) for x in marks]}, 1)
+    elif kind == "longpairs":
+        # long vectors (m = 7, 9, 12): every pair of vectors that are constant except for <= 2 coordinates
+        _, spec, m = shard
+        cmp_ = make_comparator(spec).compare
+        base = [1.0] * m
+        vs = []
+        for f in MARK:
+            vs.append(tuple(base) + (f,))
+            for i in range(m):
+                for a in (0.0, 2.0):
+                    v = list(base)
+                    v[i] = a
+                    vs.append(tuple(v) + (f,))
+                    for j in (m - 1, m // 2):
+                        if j != i:
+                            for b in (0.0, 2.0):
+                                w = list(v)
+                                w[j] = b
+                                vs.append(tuple(w) + (f,))
+        vs = list(dict.fromkeys(vs))
+        for p in vs:
+            for q in vs:
+                col.case()
+                if p != q:
+                    col.nontrivial(("long", repr(spec), p, q))
+                got = cmp_(list(p), list(q))
+                same = p == q
+                if (spec != "pareto" and same and got not in (1, 2)) or (not (spec != "pareto" and same) and got != ref_dominance(p, q)):
+                    for key, msg in check_pair(spec, p, q):
+                        col.violation(key + ":m=%d" % m, "pair", msg, {"spec": spec, "p": p, "q": q})
+        col.sample({"kind": "long-vector pair", "m": m, "comparator": spec, "p": vs[1], "q": vs[-1]}, 1)
     elif kind == "built":
         _, values, m = shard
         for signs in itertools.product((1, -1), repeat=m):
@@ -185,6 +249,16 @@ def replay(sub, case):
         return check_pair(spec, t(case["p"]), t(case["q"]))
     if sub == "triple":
         return check_triple(spec, t(case["a"]), t(case["b"]), t(case["c"]))
+    if sub == "lawpair":
+        cmp_ = make_comparator(spec).compare
+        p, q = t(case["p"]), t(case["q"])
+        a, b = cmp_(list(p), list(q)), cmp_(list(q), list(p))
+        out = []
+        if b != swap(a):
+            out.append(("C01:antisymmetry:numeric-markers", "compare(p,q)=%r, compare(q,p)=%r for %r %r" % (a, b, p, q)))
+        if (p[-1] == 0) != (q[-1] == 0) and a != (1 if p[-1] == 0 else 2):
+            out.append(("C01:feasible-not-preferred:numeric-markers", "compare(%r,%r)=%r" % (p, q, a)))
+        return out
     if sub == "history":
         vs = vectors(tuple(case["values"]), case["m"])
         cmp_ = make_comparator(spec).compare
@@ -206,19 +280,22 @@ def run(tier, seed):
     for spec in specs:
         shards += [("pairs", spec, A5, 1), ("pairs", spec, A5, 2), ("pairs", spec, V3, 3), ("pairs", spec, B2, 4)]
         if spec == "pareto" or spec == ("eps", [0.1, 0.1]):
-            shards += [("pairs", spec, (-2.0, -1.0, 1.0), 3)]
+            shards += [("pairs", spec, (-2.0, -1.0, 1.0), 3), ("pairs", spec, B2, 5), ("pairs", spec, B2, 6)]
+        if spec == "pareto" or spec == ("eps", [0.3, 0.7, 0.9]):
+            shards += [("longpairs", spec, 7), ("longpairs", spec, 9), ("longpairs", spec, 12)]
         if tier == "thorough":
             shards += [("pairs", spec, A5, 3), ("pairs", spec, B2, 5), ("pairs", spec, B2, 6)]
     shards += [("pairs", "pareto", NEAR, 1), ("pairs", "pareto", NEAR, 2)]
+    shards += [("laws", "pareto", 1), ("laws", "pareto", 2), ("laws", "pareto", 3), ("laws", ("eps", [0.1, 0.1]), 2), ("laws", ("eps", 0.25), 3)]
     if tier == "thorough":
         shards += [("pairs", "pareto", NEAR, 3)]
     shards += [("built", V3, 1), ("built", V3, 2), ("built", B2, 3)]
     if tier == "thorough":
         shards += [("built", V3, 3)]
-    shards.sort(key=lambda s: -len(s[-2]) ** s[-1])
+    shards.sort(key=lambda s: -(len(s[-2]) ** s[-1] if s[0] in ("pairs", "built") else 10 ** 6))
     col = run_shards(_shard, shards)
     extra = {"exhaustive": True,
              "alphabets": {"A5": A5, "V3": V3, "B2": B2, "markers": MARK, "epsilons": [repr(e) for e in EPS_LISTS]},
-             "bounds": "pairs+triples: A5^1, A5^2, {-2,-1,1}^3, V3^3, {0,1}^4, near-tie alphabet NEAR^1, NEAR^2 for Pareto (thorough: A5^3, {0,1}^5, {0,1}^6, NEAR^3) x markers",
+             "bounds": "pairs+triples: A5^1, A5^2, {-2,-1,1}^3, V3^3, {0,1}^4, {0,1}^5, {0,1}^6 and long vectors m=7,9,12 differing from a constant in <=2 coordinates (Pareto and two epsilon lists), near-tie alphabet NEAR^1, NEAR^2 for Pareto (thorough: A5^3, {0,1}^5, {0,1}^6, NEAR^3) x markers",
              "near_tie_alphabet": [repr(v) for v in NEAR]}
     return col, extra
